@@ -3,7 +3,7 @@ so that a wrong result is attributed to one converter (violation key = the op)."
 from __future__ import annotations
 
 from xv import c23_gen as G
-from xv.c23_ref import F16, F32, F64, FloatT, I1, I8, I16, I32, I64, IntT, VecT
+from xv.c23_ref import ArrT, F16, F32, F64, FloatT, I1, I8, I16, I32, I64, IntT, PTR, StructT, VecT
 
 WIDTHS = [1, 8, 16, 32, 64, 3, 7, 24, 33, 63]
 OVF = [(), ("nsw",), ("nuw",), ("nsw", "nuw")]
@@ -67,6 +67,21 @@ def all_specs():
     for op in ("fadd", "fmul"):
         for vt in (G.V4F32, G.V2F64):
             S.append((f"llvm.intr.vector.reduce.{op}", "vreduce", (op, vt)))
+    import random
+    r = random.Random("c23-micro-shapes")
+    for vt in (VecT(2, I32), VecT(4, I16), VecT(8, I8)):
+        for _ in range(6):
+            S.append(("llvm.shufflevector", "shuffle", (vt, tuple(r.randrange(2 * vt.n) for _ in range(vt.n)))))
+        S.append(("llvm.shufflevector", "shuffle", (vt, tuple(range(vt.n, 2 * vt.n)))))
+        S.append(("llvm.insertelement", "insdyn", (vt,)))
+    for v in range(4):
+        S.append(("llvm.insertvalue/extractvalue", "aggregate", (v,)))
+    for v in range(6):
+        S.append(("block-arguments(phi)", "cfg", (v,)))
+    for v in range(4):
+        S.append(("llvm.getelementptr/load/store", "gep", (v,)))
+    for v in range(3):
+        S.append(("llvm.call", "callargs", (v,)))
     return S
 
 
@@ -240,6 +255,193 @@ def _build(mg, name, kind, p):
         r = fb.emit("vreduce", et, ["%a0", cur], {"op": op},
                     f'"llvm.intr.vector.reduce.{op}"(%a0, {cur}) <{{fastmathFlags = #llvm.fastmath<none>}}> : ({et.mlir}, {vt.mlir}) -> {et.mlir}',
                     {"opc": "call", "callee_prefix": f"llvm.vector.reduce.{op}"})
+        fb.ret(r)
+    elif kind == "shuffle":
+        vt, mask = p
+        fb = G.FB(mg, name, [("%a0", I64), ("%a1", I64)], I64)
+        a = fb.cast("bitcast", "%a0", I64, vt)
+        b = fb.cast("bitcast", "%a1", I64, vt)
+        r = fb.emit("shufflevector", vt, [a, b], {"mask": list(mask), "n": vt.n},
+                    f"llvm.shufflevector {a}, {b} [{', '.join(map(str, mask))}] : {vt.mlir}", {"opc": "shufflevector"})
+        fb.ret(fb.cast("bitcast", r, vt, I64))
+    elif kind == "insdyn":
+        (vt,) = p
+        fb = G.FB(mg, name, [("%a0", I64), ("%a1", vt.e), ("%a2", I8)], I64)
+        a = fb.cast("bitcast", "%a0", I64, vt)
+        m = fb.const(I8, vt.n - 1, pool=False)
+        idx = fb.raw_bin("and", I8, "%a2", m, set())
+        r = fb.emit("insertelement", vt, [a, "%a1", idx], {}, f"llvm.insertelement %a1, {a}[{idx} : i8] : {vt.mlir}", {"opc": "insertelement"})
+        fb.ret(fb.cast("bitcast", r, vt, I64))
+    elif kind == "aggregate":
+        (v,) = p
+        inner = StructT([I8, I16])
+        t = [StructT([I32, ArrT(2, I64), inner]), ArrT(2, StructT([I64, I64])), StructT([ArrT(2, ArrT(2, I32)), I64]),
+             StructT([inner, inner, I64])][v]
+        fb = G.FB(mg, name, [("%a0", I64), ("%a1", I64), ("%a2", I64)], I64)
+        cur = fb.emit("undef", t, [], {}, f"llvm.mlir.undef : {t.mlir}", pool=False) if v % 2 else \
+            fb.emit("zero", t, [], {}, f"llvm.mlir.zero : {t.mlir}", pool=False)
+        leaves = list(G.leaf_positions(t))
+        srcs = ["%a0", "%a1", "%a2"]
+        for k, (pos, lt) in enumerate(leaves):
+            x = fb.int_cast(srcs[k % 3], I64, lt) if lt != I64 else srcs[k % 3]
+            if k >= 3:
+                c = fb.const(lt, k * 37 % (1 << min(lt.w, 8)), pool=False)
+                x = fb.raw_bin("xor", lt, x, c, set())
+            cur = fb.emit("insertvalue", t, [cur, x], {"pos": pos}, f"llvm.insertvalue {x}, {cur}[{', '.join(map(str, pos))}] : {t.mlir}",
+                          {"opc": "insertvalue"}, pool=False)
+        acc = None
+        for k, (pos, lt) in enumerate(leaves):
+            # extract through an intermediate aggregate for deep positions
+            base, bt, rest = cur, t, list(pos)
+            if len(rest) > 1 and k % 2:
+                sub_t = bt.fs[rest[0]] if isinstance(bt, StructT) else bt.e
+                base = fb.emit("extractvalue", sub_t, [base], {"pos": rest[:1]}, f"llvm.extractvalue {base}[{rest[0]}] : {bt.mlir}",
+                               {"opc": "extractvalue"}, pool=False)
+                bt, rest = sub_t, rest[1:]
+            e = fb.emit("extractvalue", lt, [base], {"pos": rest}, f"llvm.extractvalue {base}[{', '.join(map(str, rest))}] : {bt.mlir}",
+                        {"opc": "extractvalue"}, pool=False)
+            e = fb.cast("zext", e, lt, I64) if lt != I64 else e
+            sh = fb.const(I64, (k * 7) % 40, pool=False)
+            e = fb.raw_bin("shl", I64, e, sh, set())
+            acc = e if acc is None else fb.raw_bin("add" if k % 2 else "xor", I64, acc, e, set())
+        fb.ret(acc)
+    elif kind == "cfg":
+        (v,) = p
+        fb = G.FB(mg, name, [("%a0", I8), ("%a1", I64), ("%a2", I64)], I64)
+        c = fb.cast("trunc", "%a0", I8, I1)
+        if v == 0:  # diamond, arms pass (a,b) and (b,a)
+            t_, e_ = fb.new_block(), fb.new_block()
+            m_ = fb.new_block([(fb.v(), I64), (fb.v(), I64)])
+            fb.condbr(c, t_, [], e_, [])
+            fb.cur = t_
+            fb.br(m_, ["%a1", "%a2"])
+            fb.cur = e_
+            fb.br(m_, ["%a2", "%a1"])
+            fb.cur = m_
+            fb.ret(fb.raw_bin("sub", I64, m_.args[0][0], m_.args[1][0], set()))
+        elif v == 1:  # triangle: direct edge and one arm, three args of the same type
+            one = fb.const(I64, 1, pool=False)
+            e_ = fb.new_block()
+            m_ = fb.new_block([(fb.v(), I64), (fb.v(), I64), (fb.v(), I64)])
+            fb.condbr(c, m_, ["%a1", "%a2", one], e_, [])
+            fb.cur = e_
+            s_ = fb.raw_bin("add", I64, "%a1", "%a2", set())
+            fb.br(m_, [s_, one, "%a1"])
+            fb.cur = m_
+            x = fb.raw_bin("shl", I64, m_.args[0][0], m_.args[2][0], set())
+            fb.ret(fb.raw_bin("sub", I64, x, m_.args[1][0], set()))
+        elif v in (2, 3):  # loops: fibonacci-like pair of carried values (while / do-while)
+            three = fb.const(I8, 3, pool=False)
+            n = fb.raw_bin("and", I8, "%a0", three, set())
+            zero, one = fb.const(I8, 0, pool=False), fb.const(I8, 1, pool=False)
+            if v == 2:
+                h_ = fb.new_block([(fb.v(), I8), (fb.v(), I64), (fb.v(), I64)])
+                b_, x_ = fb.new_block(), fb.new_block()
+                fb.br(h_, [zero, "%a1", "%a2"])
+                fb.cur = h_
+                i, x, y = (a[0] for a in h_.args)
+                cc = fb.emit("icmp", I1, [i, n], {"pred": "ult", "ty": I8}, f'llvm.icmp "ult" {i}, {n} : i8', {"opc": "icmp", "pred": "ult"})
+                fb.condbr(cc, b_, [], x_, [])
+                fb.cur = b_
+                s_ = fb.raw_bin("add", I64, x, y, set())
+                i2 = fb.raw_bin("add", I8, i, one, set())
+                fb.br(h_, [i2, y, s_])
+                fb.cur = x_
+                t3 = fb.raw_bin("shl", I64, y, fb.const(I64, 1, pool=False), set())
+                fb.ret(fb.raw_bin("sub", I64, x, t3, set()))
+            else:
+                b_ = fb.new_block([(fb.v(), I8), (fb.v(), I64), (fb.v(), I64)])
+                x_ = fb.new_block([(fb.v(), I64), (fb.v(), I64)])
+                fb.br(b_, [zero, "%a1", "%a2"])
+                fb.cur = b_
+                i, x, y = (a[0] for a in b_.args)
+                s_ = fb.raw_bin("add", I64, x, y, set())
+                i2 = fb.raw_bin("add", I8, i, one, set())
+                cc = fb.emit("icmp", I1, [i2, n], {"pred": "ule", "ty": I8}, f'llvm.icmp "ule" {i2}, {n} : i8', {"opc": "icmp", "pred": "ule"})
+                fb.condbr(cc, b_, [i2, y, s_], x_, [s_, y])
+                fb.cur = x_
+                t3 = fb.raw_bin("shl", I64, x_.args[1][0], fb.const(I64, 1, pool=False), set())
+                fb.ret(fb.raw_bin("sub", I64, x_.args[0][0], t3, set()))
+        elif v == 4:  # nested diamonds with mixed-type arguments
+            t_, e_ = fb.new_block([(fb.v(), I64)]), fb.new_block([(fb.v(), I64), (fb.v(), I1)])
+            m_ = fb.new_block([(fb.v(), I64), (fb.v(), I1), (fb.v(), I64)])
+            fb.condbr(c, t_, ["%a1"], e_, ["%a2", c])
+            fb.cur = t_
+            fb.br(m_, [t_.args[0][0], c, "%a2"])
+            fb.cur = e_
+            n_ = fb.raw_bin("xor", I1, e_.args[1][0], fb.const(I1, 1, pool=False), set())
+            fb.br(m_, ["%a1", n_, e_.args[0][0]])
+            fb.cur = m_
+            z = fb.cast("zext", m_.args[1][0], I1, I64)
+            x = fb.raw_bin("sub", I64, m_.args[0][0], m_.args[2][0], set())
+            fb.ret(fb.raw_bin("add", I64, x, z, set()))
+        else:  # three predecessors into one block
+            b1, b2, b3 = fb.new_block(), fb.new_block(), fb.new_block()
+            m_ = fb.new_block([(fb.v(), I64), (fb.v(), I64)])
+            fb.condbr(c, b1, [], b2, [])
+            fb.cur = b1
+            fb.br(m_, ["%a1", "%a2"])
+            fb.cur = b2
+            lt = fb.emit("icmp", I1, ["%a1", "%a2"], {"pred": "slt", "ty": I64}, 'llvm.icmp "slt" %a1, %a2 : i64', {"opc": "icmp", "pred": "slt"})
+            fb.condbr(lt, b3, [], m_, ["%a2", "%a1"])
+            fb.cur = b3
+            d = fb.raw_bin("sub", I64, "%a2", "%a1", set())
+            fb.br(m_, [d, d])
+            fb.cur = m_
+            y2 = fb.raw_bin("shl", I64, m_.args[1][0], fb.const(I64, 1, pool=False), set())
+            fb.ret(fb.raw_bin("sub", I64, m_.args[0][0], y2, set()))
+    elif kind == "gep":
+        (v,) = p
+        t = [StructT([I8, I32, ArrT(4, I16), I64]), ArrT(3, StructT([I16, I64])), StructT([StructT([I8, I64]), ArrT(2, I32), I8]),
+             ArrT(2, ArrT(3, I32))][v]
+        fb = G.FB(mg, name, [("%a0", I64), ("%a1", I64), ("%a2", I8)], I64)
+        one = fb.const(I32, 1, pool=False)
+        obj = fb.emit("alloca", PTR, [one], {"elem": t, "align": None}, f"llvm.alloca {one} x {t.mlir} : (i32) -> !llvm.ptr",
+                      {"opc": "alloca", "align": None}, pool=False)
+        leaves = list(G.leaf_positions(t))
+        srcs = ["%a0", "%a1"]
+        ptrs = []
+        for k, (pos, lt) in enumerate(leaves):
+            idx, idxw, txt, tys = [0], {}, ["0"], []
+            for d, i in enumerate(pos):
+                # make the innermost array index dynamic (masked argument) when the bound allows
+                idx.append(i)
+                txt.append(str(i))
+            inb = bool(k % 2)
+            q = fb.emit("gep", PTR, [obj], {"elem": t, "idx": idx, "idxw": idxw, "inbounds": inb},
+                        f"llvm.getelementptr {'inbounds ' if inb else ''}{obj}[{', '.join(txt)}] : (!llvm.ptr) -> !llvm.ptr, {t.mlir}",
+                        {"opc": "getelementptr", "flags": {"inbounds"} if inb else set()}, pool=False)
+            ptrs.append((q, lt))
+            x = fb.int_cast(srcs[k % 2], I64, lt) if lt != I64 else srcs[k % 2]
+            c = fb.const(lt, (k * 29 + 3) % (1 << min(lt.w, 8)), pool=False)
+            x = fb.raw_bin("add", lt, x, c, set())
+            i_ = fb.emit("cast", I64, [q], {"op": "ptrtoint", "from": PTR, "flags": set()}, f"llvm.ptrtoint {q} : !llvm.ptr to i64",
+                         {"opc": "ptrtoint", "flags": set()}, pool=False)
+            q2 = fb.emit("cast", PTR, [i_], {"op": "inttoptr", "from": I64, "flags": set()}, f"llvm.inttoptr {i_} : i64 to !llvm.ptr",
+                         {"opc": "inttoptr", "flags": set()}, pool=False)
+            fb.emit("store", None, [x, q2], {"ty": lt, "align": None}, f"llvm.store {x}, {q2} : {lt.mlir}, !llvm.ptr",
+                    {"opc": "store", "align": None, "ty": lt})
+        acc = None
+        for k, (q, lt) in enumerate(ptrs):
+            e = fb.emit("load", lt, [q], {"align": None}, f"llvm.load {q} : !llvm.ptr -> {lt.mlir}", {"opc": "load", "align": None, "ty": lt}, pool=False)
+            e = fb.cast("zext", e, lt, I64) if lt != I64 else e
+            sh = fb.const(I64, (k * 5) % 32, pool=False)
+            e = fb.raw_bin("shl", I64, e, sh, set())
+            acc = e if acc is None else fb.raw_bin("xor" if k % 2 else "add", I64, acc, e, set())
+        fb.ret(acc)
+    elif kind == "callargs":
+        (v,) = p
+        h = G.FB(mg, name + "_callee", [("%a0", I64), ("%a1", I64), ("%a2", I32)], I64, cconv="ccc", linkage=["", "internal", "private"][v])
+        z = h.cast("zext", "%a2", I32, I64)
+        d = h.raw_bin("sub", I64, "%a0", "%a1", set())
+        h.ret(h.raw_bin("shl", I64, d, h.raw_bin("and", I64, z, h.const(I64, 7, pool=False), set()), set()))
+        mg.mod.funcs.append(h.f)
+        mg.done.add(h.f.name)
+        fb = G.FB(mg, name, [("%a0", I64), ("%a1", I64), ("%a2", I32)], I64)
+        kindt = ["none", "tail", "none"][v]
+        txt = "llvm.call " + (kindt + " " if kindt != "none" else "") + f"@{h.f.name}(%a1, %a0, %a2) : (i64, i64, i32) -> i64"
+        r = fb.emit("call", I64, ["%a1", "%a0", "%a2"], {"callee": h.f.name, "cconv": "ccc", "tail": kindt, "fm": set()}, txt,
+                    {"opc": "call", "callee": h.f.name, "cconv": "ccc", "tail": kindt, "flags": set()})
         fb.ret(r)
     else:
         raise KeyError(kind)
